@@ -112,9 +112,9 @@ def splitSemi (toks : List String) : List (List String) :=
     | t :: r => go (t :: acc) out r
   go [] [] toks
 
-/-- Checks on (state before the action, action, state the kill left, the start's answer, state
+/-- Checks on (state before the action, action, did it run to completion, state the kill left, the start's answer, state
     after the start). `s1 = s0` for a plain `start` line. Only for `good` initial states. -/
-def judge (s0 : FS) (act : Option Action) (s1 : FS) (r : Option ImplStart) (s2 : FS) : String :=
+def judge (s0 : FS) (act : Option Action) (clean : Bool) (s1 : FS) (r : Option ImplStart) (s2 : FS) : String :=
   if !good d s0 then "ok"
   else match r with
   | none => "fail start-failed"
@@ -134,14 +134,17 @@ def judge (s0 : FS) (act : Option Action) (s1 : FS) (r : Option ImplStart) (s2 :
       let okSleep := match act with
         | some (.persist w) => r.sleep = before || (s0.dir && r.sleep = some w)
         | _ => r.sleep = before
-      if okSleep then "ok" else "fail sleep-torn"
+      let saved := match act with
+        | some (.persist w) => !(clean && s0.dir) || r.sleep = some w     -- a save that ran to completion is loaded back
+        | _ => true
+      if !okSleep then "fail sleep-torn" else if !saved then "fail sleep-not-saved" else "ok"
 
 def spec (line : String) (implOut : String) : String :=
   if implOut.startsWith "panic" || implOut.startsWith "crash " then "fail crashed"
   else match tokens line with
   | "start" :: st => match parseFS st, splitSemi (tokens implOut) with
     | some s, [r, s2] => match parseImplStart r, parseFS s2 with
-      | some r, some s2 => judge s none s r s2
+      | some r, some s2 => judge s none false s r s2
       | _, _ => if good d s then "fail unparsable-answer" else "ok"
     | _, _ => "ok"
   | "crash" :: _ :: _ :: rest => match parseAction rest with
@@ -149,7 +152,7 @@ def spec (line : String) (implOut : String) : String :=
       | some s, [how :: s1, r, s2] =>
         if how != "killed" && how != "clean" then "fail crash-run-failed" else
         match parseFS s1, parseImplStart r, parseFS s2 with
-        | some s1, some r, some s2 => judge s (some a) s1 r s2
+        | some s1, some r, some s2 => judge s (some a) (how == "clean") s1 r s2
         | _, _, _ => if good d s then "fail unparsable-answer" else "ok"
       | some _, _ => "fail crash-run-failed"
       | none, _ => "ok"
